@@ -93,3 +93,44 @@ def selout_input(rng):
             t.append(selected_output(rng, rng.choice(users)))
         t.append("END\n")
     return "".join(t), users
+
+
+def stream_input(rng, allow_error=True):
+    """input exercising every output stream: output, log (KNOBS -logfile), warnings, errors, DUMP, selected output"""
+    t = []
+    users = []
+    if rng.random() < 0.3:
+        t.append("TITLE stream test\n")
+    if rng.random() < 0.4:
+        t.append("KNOBS\n -logfile true\n")
+    t.append(solution(rng, 1))
+    if rng.random() < 0.6:
+        u = rng.choice([1, 2, 5])
+        users.append(u)
+        t.append(selected_output(rng, u))
+        if rng.random() < 0.5:
+            t.append(user_punch(rng, u))
+    if rng.random() < 0.4:
+        # warning: negative concentration / unknown option warnings
+        t.append("SOLUTION 3\n pH 7 charge\n Na 1\n Cl 1.1\n -water 1\n")
+    if rng.random() < 0.5:
+        t.append("DUMP\n -solution 1\n" + (" -append %s\n" % rng.choice(["true", "false"]) if rng.random() < 0.3 else ""))
+    t.append("END\n")
+    r = rng.random()
+    if r < 0.3:
+        t.append("USE solution 1\nEQUILIBRIUM_PHASES 1\n Calcite 0 1\n Gypsum 0 0\nSAVE solution 2\nEND\n")
+        if rng.random() < 0.5:
+            t.append("DUMP\n -all\nEND\n")
+    elif r < 0.5:
+        t.append("USE solution 1\nREACTION 1\n HCl 1\n 0.001 0.002 0.003\nEND\n")
+    if allow_error:
+        e = rng.random()
+        if e < 0.12:
+            t.append("USE solution 77\nEND\n")                       # undefined solution -> ERROR
+        elif e < 0.2:
+            t.append("SOLUTION 4\n pH 7\n Xx 1\nEND\n")              # unknown element -> ERROR
+        elif e < 0.26:
+            t.append("EQUILIBRIUM_PHASES 1\n NoSuchPhase 0 1\nUSE solution 1\nEND\n")
+        elif e < 0.3:
+            t.append("SOLUTION 5\n -bogus_option 3\n pH 7\nEND\n")   # warning or error on unknown option
+    return "".join(t), users
